@@ -216,7 +216,19 @@ TLazyRead ==
      \/ (Ev.outcome = "panic" /\ Dev("LazyReadAfterInstallPanics"))
   /\ UNCHANGED <<st, pinned, hist, dlog>>
 
-TNext == TLazyRead \/ TDLog \/ TRecovered \/ TRecStart \/ TRoTxnAt \/ TLookupAt \/ TIterAt \/ TUpdate \/ TLookup \/ TIter \/ TRoTxn \/ TIndex \/ TReopen \/ TPrepare \/ TRecover \/ TReset
+\* a command snapshot (source of backups and follower recovery streams) taken while updates continue: its pairs are
+\* the content at EXACTLY the index it declares (C07).  During a recorded section update k (index k+1) makes hist[k+1].
+RECURSIVE PairsMap(_, _)
+PairsMap(mp, ps) == IF ps = <<>> THEN mp
+                    ELSE PairsMap([x \in DOMAIN mp \cup {Head(ps).k} |-> IF x = Head(ps).k THEN Head(ps).v ELSE mp[x]], Tail(ps))
+TSnapAt ==
+  /\ IsEvent("snap_at")
+  /\ Ev.index >= 1 /\ Ev.index <= Len(hist)
+  /\ Len(Ev.pairs) = Cardinality({Ev.pairs[i].k : i \in 1..Len(Ev.pairs)})
+  /\ PairsMap(EmptyKV, Ev.pairs) = hist[Ev.index]
+  /\ UNCHANGED <<st, pinned, hist, dlog>>
+
+TNext == TSnapAt \/ TLazyRead \/ TDLog \/ TRecovered \/ TRecStart \/ TRoTxnAt \/ TLookupAt \/ TIterAt \/ TUpdate \/ TLookup \/ TIter \/ TRoTxn \/ TIndex \/ TReopen \/ TPrepare \/ TRecover \/ TReset
 
 TSpec == TInit /\ [][TNext]_vars
 
